@@ -47,7 +47,7 @@ FTYPES = {
 ORDER = [t for t in FTYPES if t != "intok"]
 ADDITIONS = ["", "addition=False", "addition=int"]
 # further options of the declaration (the black-box item judgement runs under the same ones)
-XOPTS = ["", "ignore_constraints=True", "max_params=1"]
+XOPTS = ["", "ignore_constraints=True", "max_params=1", "data_first_search=True, ignore_alias_conflicts=True"]
 EXCESS = [(), (("zz", "1"),), (("zz", "'x'"),), (("zz", "'x'"), ("yy", "2"))]
 MAXERR = [None, 1, 2, 3]
 NAMES = ["a", "b", "c"]
